@@ -18,7 +18,7 @@ pub fn run_case(case: &SysCase, stats: &mut CaseStats, focus: &str) -> VResult {
     let mut s = Sys::new(case, stats, focus)?;
     // pledge cushion (see DESIGN §4-A): a large locked reward on a dedicated, otherwise idle miner keeps the
     // network pledge total above the uncounted creation deposits so that the search continues past that finding
-    s.cushion()?;
+    s.cushion(case.whale)?;
     for (i, op) in case.ops.iter().enumerate() {
         s.step(i, op)?;
     }
@@ -47,7 +47,8 @@ impl Engine for SysEngine {
         };
         let dispute = match self.id { "C15" => 30, "C02" | "C01" => 10, _ => 5 };
         let verified = match self.id { "C10" => 40, "C02" | "C04" => 8, _ => 4 };
-        case_strategy_w(if tier == Tier::Quick { 60 } else { 100 }, bulk, long, dispute, verified).boxed()
+        let benef = match self.id { "C14" => 30, _ => 3 };
+        case_strategy_w(if tier == Tier::Quick { 60 } else { 100 }, bulk, long, dispute, verified, benef).boxed()
     }
     fn rule(&self) -> String {
         let common = "case = 1–4 real miners (2 KiB / 8 MiB / 32 GiB proofs; consensus minimum at mainnet or a documented devnet value) created through power.CreateMiner with the real deposit, plus an idle 'cushion' miner holding a large locked reward; ≤60/100 generated operations: pre-commit (valid, reused number, bad randomness epoch, short life), ProveCommitSectors3 (good/bad proofs, any caller), Window PoSt for the open deadline (skipped sets drawn from the partition, bad proofs, partial partition lists), fault and recovery declarations, terminations, extensions, partition compaction, AwardBlockReward with gas reward/penalty/win count, withdrawals by owner/worker/stranger, RepayDebt, disputes, consensus-fault reports, top-ups, macro onboarding/posting steps, and epoch advances to deadline boundaries (−1/0/+1), prove windows and sector deadlines; the cron tick really runs at every epoch; faults can be injected into a nested send of a message or of a tick (dropped again if the actor does not tolerate them). Everything is recomputed from the state tree after every message and every tick. ";
